@@ -63,6 +63,9 @@ func uPool() []Cmd {
 		/*25*/ {Command: "café au lait", Description: "Serve café to the folder", Keywords: []string{"café"}, Tags: []string{"Drinks", "git"}},
 		/*26*/ {Command: "svn checkout url", Description: "Check out a working copy", Keywords: []string{"version control", "source code", "list"}, Tags: []string{"file management", "vcs tool"}},
 		/*27*/ {Command: "rsync -av src/ dst/", Description: "Mirror a folder", Keywords: []string{"copy-files fast", "a.b sync", "backup  files"}, Tags: []string{"Version Control"}},
+		/*28*/ {Command: "sudo docker ps", Description: "List files of containers as root", Keywords: []string{"docker", "list"}, Platform: []string{"windows"}},
+		/*29*/ {Command: "gitk --all", Description: "Browse git files history", Keywords: []string{"git", "history"}, Platform: []string{"windows"}},
+		/*30*/ {Command: "nohup find / -name core", Description: "Find core files in the background", Keywords: []string{"find", "files"}, Platform: []string{"macos"}},
 	}
 }
 
